@@ -664,6 +664,24 @@ fn case_codec(ctx: &mut Ctx, sch: &Sch, sub: u64) {
         }
         None => ctx.report.violation("model", "C09:model-encode-bytes-differ", format!("model refused canonical document: {menc}"), case.clone()),
     }
+    // the in-memory form: `node_data` of a document holding one of the values (leaf encodings,
+    // address tables of arrays / objects) against the Lean `cdAdd`, and the model's read-back
+    if let Some((f, v)) = gd.expected.iter().max_by_key(|(_, v)| matches!(v, OwnedValue::Object(_) | OwnedValue::Array(_)) as u8) {
+        let mut cv = String::new();
+        canon_value(v, &mut cv);
+        if cv.len() <= 20_000 {
+            let mut d1 = TantivyDocument::default();
+            d1.add_field_value(*f, v);
+            let m = ctx.model.ask(&format!("C09 cdoc {cv}"));
+            let parts: Vec<&str> = m.split('|').collect();
+            if parts.len() != 3 || parts[0] != hex(&d1.node_data) {
+                ctx.report.violation("model", "C09:compact-doc-bytes", format!("node_data of a TantivyDocument holding {} differs from the model's ({} bytes real)", clip(&cv), d1.node_data.len()), case.clone());
+            } else if parts[2] != cv {
+                ctx.report.violation("model", "C09:compact-doc-model-read", format!("the model reads {} back from its own node_data for {}", clip(parts[2]), clip(&cv)), case.clone());
+            }
+            ctx.report.count("checked:compact-doc-node-data");
+        }
+    }
     if ctx.report.samples.len() < 2 && nested {
         ctx.report.sample(json!({"kind":"codec","stored_view": clip(&expected), "bytes": bytes.len()}));
     }
@@ -2496,6 +2514,96 @@ fn case_json_numbers(ctx: &mut Ctx) {
     }
 }
 
+/// merge of segments whose doc stores were written with DIFFERENT compressors (each source is an
+/// index of its own, the target has its own `docstore_compression`): a store may only be stacked
+/// block-wise if its codec is the target's; otherwise it must be re-compressed
+fn case_mixed_codec_merge(ctx: &mut Ctx, sch: &Sch, k: Consts, sub: u64) {
+    let mut rng = Rng::new(sub);
+    let case = json!({"kind": "mixed", "sub": sub.to_string()});
+    let comps = [Compressor::None, Compressor::Lz4, Compressor::Zstd(ZstdCompressor::default())];
+    let target = IndexSettings {
+        docstore_compression: *rng.pick(&comps),
+        docstore_blocksize: *rng.pick(&[1usize, 16, 64, 300, k.default_bs]),
+        docstore_compress_dedicated_thread: rng.chance(1, 2),
+        ..Default::default()
+    };
+    let nsrc = 1 + rng.usize_below(3);
+    let mut differing = 0usize;
+    let mut stackable_other_codec = 0usize;
+    let res = catch_unwind(AssertUnwindSafe(|| -> tantivy::Result<(Index, Expect, Vec<bool>)> {
+        let mut exp = Expect { canon: vec![], docs: vec![] };
+        let mut deleted: Vec<bool> = vec![];
+        let mut segments = vec![];
+        let mut keep_alive = vec![];
+        for _ in 0..nsrc {
+            let comp = *rng.pick(&comps);
+            let settings = IndexSettings {
+                docstore_compression: comp,
+                // small blocks: enough of them for the stacking shortcut
+                docstore_blocksize: *rng.pick(&[0usize, 1, 16, 40, 120]),
+                docstore_compress_dedicated_thread: rng.chance(1, 2),
+                ..Default::default()
+            };
+            let index = Index::create(RamDirectory::create(), sch.schema.clone(), settings)?;
+            let mut w: IndexWriter = index.writer_with_num_threads(1, 30_000_000)?;
+            w.set_merge_policy(Box::new(NoMergePolicy));
+            let n = *rng.pick(&[1usize, 5, 6, 7, 12, 30]);
+            let first = exp.canon.len();
+            for _ in 0..n {
+                let prof = match rng.below(5) { 0 => DocProfile::ManyValues, 1 => DocProfile::Mixed, 2 => DocProfile::Json, _ => DocProfile::Small };
+                let gd = gen_doc(&mut rng, sch, prof);
+                let id = exp.canon.len();
+                let mut doc = to_tantivy_doc(&gd.added);
+                doc.add_u64(sch.id, id as u64);
+                doc.add_u64(sch.sk, rng.below(50));
+                w.add_document(doc)?;
+                exp.canon.push(canon_fields(&gd.expected));
+                exp.docs.push(gd.expected);
+                deleted.push(false);
+            }
+            w.commit()?;
+            let with_deletes = rng.chance(1, 4) && n > 1;
+            if with_deletes {
+                w.delete_term(Term::from_field_u64(sch.id, first as u64));
+                deleted[first] = true;
+                w.commit()?;
+            }
+            drop(w);
+            let segs = index.searchable_segments()?;
+            if compressor_name(&comp) != compressor_name(&target.docstore_compression) {
+                differing += 1;
+                if !with_deletes {
+                    if let Some(seg) = segs.first() {
+                        let store = seg.open_read(SegmentComponent::Store)?.read_bytes()?.as_slice().to_vec();
+                        if let Ok(r) = open_real(&store, 1) {
+                            if tantivy::verif::c09_block_checkpoints(&r).len() >= k.min_stack_blocks {
+                                stackable_other_codec += 1;
+                            }
+                        }
+                    }
+                }
+            }
+            segments.extend(segs);
+            keep_alive.push(index);
+        }
+        let filters = segments.iter().map(|_| None).collect::<Vec<_>>();
+        let merged = tantivy::indexer::merge_filtered_segments(&segments, target.clone(), filters, RamDirectory::create())?;
+        Ok((merged, exp, deleted))
+    }));
+    ctx.report.case(&format!("mixed|{sub}"), true);
+    ctx.report.count(if differing > 0 { "mixed-codec-merge:source-codec-differs" } else { "mixed-codec-merge:same-codec" });
+    if stackable_other_codec > 0 {
+        ctx.report.count("mixed-codec-merge:stackable-source-with-other-codec");
+    }
+    match res {
+        Ok(Ok((merged, exp, deleted))) => {
+            check_searcher(ctx, &mut rng, &merged, sch, &exp, &deleted, "after a merge of stores written with different compressors", &case);
+        }
+        Ok(Err(e)) => ctx.report.violation("oracle", "C09:mixed-codec-merge-error", format!("merge of segments with different docstore_compression failed: {e}"), case),
+        Err(_) => ctx.report.violation("oracle", "C09:mixed-codec-merge-panic", "merge of segments with different docstore_compression panicked".into(), case),
+    }
+}
+
 // ------------------------------------------------------------------------------------------
 // phases, child processes
 // ------------------------------------------------------------------------------------------
@@ -2527,6 +2635,7 @@ fn plan(seed: u64, thorough: bool) -> Vec<(&'static str, Vec<(&'static str, u64)
         ("filtered", subs("filtered", b(45, 1500)).into_iter().map(|s| ("filtered", s)).collect()),
         ("v1", subs("v1", b(6, 40)).into_iter().map(|s| ("v1", s)).collect()),
         ("jsondoc", subs("jsondoc", b(60, 1500)).into_iter().map(|s| ("jsondoc", s)).collect()),
+        ("mixed", subs("mixed", b(40, 800)).into_iter().map(|s| ("mixed", s)).collect()),
     ]
 }
 
@@ -2547,6 +2656,7 @@ fn run_case(ctx: &mut Ctx, sch: &Sch, k: Consts, kind: &str, sub: u64) {
         "v1" => case_v1_store(ctx, sch, sub),
         "jsondoc" => case_json_docs(ctx, sch, k, sub),
         "jsonnum" => case_json_numbers(ctx),
+        "mixed" => case_mixed_codec_merge(ctx, sch, k, sub),
         other => ctx.report.notes.push(format!("unknown case kind {other}")),
     }
 }
@@ -2677,6 +2787,7 @@ pub fn run(ctx: &mut Ctx) {
         "model iterRaw on real files with deletes = live documents".into(),
         "version-1 doc store: model deserializeDocV 1 = what the real reader returns before a merge".into(),
         "JSON number classification: OwnedValue::from(serde_json::Value) = model jsonNumber".into(),
+        "TantivyDocument node_data (leaf encodings, address tables) = model cdAdd, byte for byte".into(),
     ];
     // ---- child: one phase, or one replayed case, in this process -------------------------------
     if let Ok(phase) = std::env::var("TVH_C09_CHILD") {
